@@ -27,6 +27,15 @@ def _check_key(key, depth, rng):
             probs.append(f"{name}: {len(a)} values for depth {depth}")
         if any(not (0 <= v < 2**64) for v in a):
             probs.append(f"{name}: value outside 64 bits")
+        # a pure function of (key, depth): what a caller does to one answer cannot change the next one
+        want = list(a)
+        if isinstance(a, list):
+            a.append(0)
+            a[0] = (a[0] + 1) % 2**64
+            a.reverse()
+        if list(fn(key, depth)) != want:
+            probs.append(f"{name}: the answer for (key, depth) changes after a caller modified an earlier answer (shared state between calls)")
+        a = want
         if fn(key, d2)[:depth] != a:
             probs.append(f"{name}: depth {depth} is not a prefix of depth {d2}")
         if isinstance(key, str):
@@ -60,6 +69,11 @@ def _check_key(key, depth, rng):
         a = fn(key, depth)
         if len(a) != depth or fn(key, d2)[:depth] != a or a != fn(key, depth):
             probs.append(f"hash_with_depth_int({nm}): length/prefix/determinism")
+        want = list(a)
+        if isinstance(a, list):
+            a.clear()
+        if list(fn(key, depth)) != want:
+            probs.append(f"hash_with_depth_int({nm}): answer changes after a caller modified an earlier answer")
     for nm in ("fnvle", "chain"):
         fn = H.hash_with_depth_bytes(inner_bytes(nm))
         a = fn(key, depth)
